@@ -406,6 +406,14 @@ func (ms *Modules) Process() []error {
 	for _, m := range mods {
 		ToEntry(m).Augment(true)
 	}
+	// An augment that could only be applied now (its path runs through an
+	// implicit case) may have brought choices of its own.
+	for _, m := range ms.Modules {
+		ToEntry(m).FixChoice()
+	}
+	for _, m := range ms.SubModules {
+		ToEntry(m).FixChoice()
+	}
 	// Augmentation may have recorded errors anywhere (e.g., on the target
 	// of a conflicting augment), so collect from all modules again.
 	for _, m := range ms.Modules {
